@@ -440,7 +440,7 @@ type outcome struct {
 	eofClass string
 }
 
-const recvTimeout = 5 * time.Second
+const recvTimeout = 10 * time.Second
 
 func runOnce(c caseT, e expectT, stream []byte) outcome {
 	ln, err := net.Listen("tcp", "127.0.0.1:0")
@@ -626,6 +626,7 @@ func runOnce(c caseT, e expectT, stream []byte) outcome {
 	}
 
 	// after the error: whatever follows (garbage / the writer's close) must not panic or block
+	drained := false
 	for k := 0; k < 40; k++ {
 		r, ok := receive()
 		if !ok {
@@ -639,11 +640,15 @@ func runOnce(c caseT, e expectT, stream []byte) outcome {
 			return outcome{msg: "Receive returned an error together with bytes after the stream had ended"}
 		}
 		if r.err == io.EOF || errors.Is(r.err, io.ErrUnexpectedEOF) {
+			drained = true
 			break
 		}
 		if r.err == nil {
 			snaps = append(snaps, snap{r.b, append([]byte(nil), r.b...)})
 		}
+	}
+	if !drained {
+		abort() // the writer may still be writing the rest of a long tail
 	}
 	select {
 	case <-wdone:
@@ -801,7 +806,7 @@ func check(c caseT) (msg string, nontrivial bool, classes []string, inconclusive
 func TestFraming(t *testing.T) {
 	rec.Assume("reference framing model written from Part 6 7.1.2.2 (3 type bytes, chunk byte, uint32 LE size including the header); ERR body = uint32 code + UA String")
 	rec.Assume("receiver-side read boundaries are influenced (TCP_NODELAY, one write per segment, pauses), not dictated: the conn is a concrete *net.TCPConn")
-	rec.Assume("only R >= 8192 (protocol minimum of a negotiated buffer); a blocked Receive is a violation only if it reproduces 3 times with a 5 s bound each")
+	rec.Assume("only R >= 8192 (protocol minimum of a negotiated buffer); a blocked Receive is a violation only if it reproduces 3 times with a 10 s bound each")
 	rapid.Check(t, func(t *rapid.T) {
 		c := genCase(t)
 		msg, nt, classes, inconcl := check(c)
